@@ -224,6 +224,8 @@ class MetadataPdu(AbstractFileDirectiveBase):
         if metadata_pdu.pdu_file_directive.pdu_conf.crc_flag == CrcFlag.WITH_CRC:
             end_of_params -= 2
         data = data[:end_of_params]
+        if len(data) < current_idx + 1:
+            raise BytesTooShortError(current_idx + 1, len(data))
         params = MetadataParams(False, ChecksumType.MODULAR, 0, "", "")
         params.closure_requested = bool(data[current_idx] & 0x40)
         params.checksum_type = ChecksumType(data[current_idx] & 0x0F)
